@@ -108,7 +108,7 @@ func (s *Server) handleProposeVersions(msg protocol.Message) error {
 			if err == nil && proposedVersionData != nil &&
 				proposedVersionData.Query() {
 				msgQueryReply := NewMsgQueryReply(s.config.ProtocolVersionMap)
-				if err := s.SendMessage(msgQueryReply); err != nil {
+				if err := s.SendMessageAndWait(msgQueryReply); err != nil {
 					return err
 				}
 				return errors.New(
@@ -135,13 +135,15 @@ func (s *Server) handleProposeVersions(msg protocol.Message) error {
 		// sort asending - iterating over map is not deterministic
 		slices.Sort(supportedVersions)
 
+		// Refusals and query replies are final messages: returning the error
+		// below stops the protocol, so wait until the message is on the wire
 		msgRefuse := NewMsgRefuse(
 			[]any{
 				RefuseReasonVersionMismatch,
 				supportedVersions,
 			},
 		)
-		if err := s.SendMessage(msgRefuse); err != nil {
+		if err := s.SendMessageAndWait(msgRefuse); err != nil {
 			return err
 		}
 		return errors.New("handshake failed: refused due to version mismatch")
@@ -166,7 +168,7 @@ func (s *Server) handleProposeVersions(msg protocol.Message) error {
 				),
 			},
 		)
-		if err := s.SendMessage(msgRefuse); err != nil {
+		if err := s.SendMessageAndWait(msgRefuse); err != nil {
 			return err
 		}
 		return errors.New("handshake failed: refused due to empty version data")
@@ -182,7 +184,7 @@ func (s *Server) handleProposeVersions(msg protocol.Message) error {
 				err.Error(),
 			},
 		)
-		if err := s.SendMessage(msgRefuse); err != nil {
+		if err := s.SendMessageAndWait(msgRefuse); err != nil {
 			return err
 		}
 		return fmt.Errorf(
@@ -200,7 +202,7 @@ func (s *Server) handleProposeVersions(msg protocol.Message) error {
 				),
 			},
 		)
-		if err := s.SendMessage(msgRefuse); err != nil {
+		if err := s.SendMessageAndWait(msgRefuse); err != nil {
 			return err
 		}
 		return errors.New("handshake failed: refused due to empty version map")
@@ -216,7 +218,7 @@ func (s *Server) handleProposeVersions(msg protocol.Message) error {
 				errMsg,
 			},
 		)
-		if err := s.SendMessage(msgRefuse); err != nil {
+		if err := s.SendMessageAndWait(msgRefuse); err != nil {
 			return err
 		}
 		return fmt.Errorf(
